@@ -375,6 +375,14 @@ def run_path(case: Case, prefix, solver, pending, opts, profile=False):
         if out["status"] in ("ok", "allowed-exception") or exc_info:
             # vacuity guard: the path condition together with all assumptions must be satisfiable
             r, m = c.check()
+            if r == "unknown":
+                # a loaded machine can push a query over its budget: one retry with a 4x budget before giving up
+                old = c.timeout_ms
+                c.timeout_ms = old * 4
+                try:
+                    r, m = c.check()
+                finally:
+                    c.timeout_ms = old
             if r == "unsat":
                 out["status"] = "infeasible"
             elif r == "unknown":
@@ -464,6 +472,9 @@ def _discharge(case, c, ob: Ob, out, opts):
         else:
             # sensitivity twins only need to be refuted on SOME path: a short budget per path is enough
             verdict, _m, how = _final_check(c, neg, opts["timeout_ms"] if ob.expect != "sat" else min(opts["timeout_ms"], 4000), quick_only=(ob.expect == "sat"))
+            if verdict == "unknown" and ob.expect != "sat":
+                # one retry with a 4x budget (a loaded machine can push a query over its budget)
+                verdict, _m, how = _final_check(c, neg, opts["timeout_ms"] * 4)
             if verdict == "unknown" and ob.expect != "sat":
                 wit = _witness_by_evaluation(c, neg, opts.get("seed", 0), tries=200)
                 if wit is not None:
